@@ -302,7 +302,58 @@ def c_deb_ops(r, c):
     return r
 
 
-CORRUPT = {"upseq": c_upseq, "rt2": c_rt2, "cs_ops": c_cs_ops, "deb_ops": c_deb_ops, "cmp": c_cmp, "row": c_row, "triple": c_triple, "sort": c_sort, "parse": c_parse, "dep": c_dep, "dep_rt": c_dep_rt,
+def _bump_run(rle):
+    # one byte of a long value lost: the longest run is one shorter
+    if not rle:
+        return False
+    i = max(range(len(rle)), key=lambda k: rle[k][1])
+    if rle[i][1] < 2:
+        return False
+    rle[i][1] -= 1
+    return True
+
+
+def c_read_long(r, c):
+    for p in r["all"]["paras"]:
+        for v in p["values"]:
+            if _bump_run(v["value"]):
+                return r
+    return None
+
+
+def c_write_long(r, c):
+    return r if _bump_run(r["written"]) else None
+
+
+def c_rt_long(r, c):
+    for d in r["decoded"]:
+        if _bump_run(d):
+            return r
+    return None
+
+
+def c_doc_long(r, c):
+    if r["depends"] and _bump_run(r["depends"][0][0]["name"]):
+        return r
+    return None
+
+
+def c_cl_long(r, c):
+    if r["entries"] and _bump_run(r["entries"][0]["changelog"]):
+        return r
+    return None
+
+
+def c_hasher_life(r, c):
+    for st, op in zip(r["steps"], r["in"]["ops"]):
+        if op["op"] in ("s", "e"):
+            st["size"] += 1
+            return r
+    return None
+
+
+CORRUPT = {"read_long": c_read_long, "write_long": c_write_long, "rt_long": c_rt_long, "doc_long": c_doc_long, "cl_long": c_cl_long,
+           "hasher_life": c_hasher_life, "upseq": c_upseq, "rt2": c_rt2, "cs_ops": c_cs_ops, "deb_ops": c_deb_ops, "cmp": c_cmp, "row": c_row, "triple": c_triple, "sort": c_sort, "parse": c_parse, "dep": c_dep, "dep_rt": c_dep_rt,
            "arch_rt": c_arch_rt, "is": c_is, "setmatch": c_setmatch, "select": c_select, "sat": c_sat, "read": c_read,
            "write": c_write, "rw": c_rw, "rt": c_rt, "passthru": c_passthru, "doc": c_doc, "cs": c_cs, "hw": c_hw, "hr": c_hw,
            "verifier": c_verifier, "ar": c_ar, "arbig": c_arbig, "arraw": c_arraw, "debraw": c_debraw, "deb": c_deb, "cl": c_cl,
